@@ -7,12 +7,12 @@ from framework import REPO
 from props import e1util
 from props.e1util import unhex
 
-TIE = ["Nsq.Tie.Wire", "Nsq.Tie.WireFn"]
+TIE = ["Nsq.Tie.Wire", "Nsq.Tie.WireFn", "Nsq.Tie.WireStack"]
 # audit round 7, B28 (builder codec2): ties the old extractor was blind to — the fan-out loop with its call
 # statements, `continue` and nesting (kind stmtsx), and the protocol magics tied to the model's bytes
 TIE_B28 = ["Nsq.Tie.FanoutX", "Nsq.Tie.MagicBytes"]
 TIE = TIE + TIE_B28
-PROPS = ["Nsq.Props.C07", "Nsq.Props.C07Path", "Nsq.Props.C07Fn"]
+PROPS = ["Nsq.Props.C07", "Nsq.Props.C07Path", "Nsq.Props.C07Fn", "Nsq.Props.C07Stack"]
 
 
 from props import e9_dq  # noqa: E402
@@ -44,6 +44,14 @@ def run(ctx):
         "frames are within the client's int32 length (size_le_limits: max-msg-size + 30 < 2^31)",
         "connection model: IDENTIFY (feature upgrades, output buffer change) is accepted only before SUB and "
         "message frames are sent only to subscribed clients — as protocolV2.IDENTIFY / messagePump enforce",
+        "PARTIAL (audit A2, until fix F30 is committed): on the tree before F30 'every output byte goes to the negotiated "
+        "transport' holds only for connections that never change the output buffer after an upgrade "
+        "(hypothesis NoRebufferAfterUpgrade of Props.C07Stack.output_on_negotiated_transport_partial; witness "
+        "output_on_negotiated_transport_false, open finding second-identify-cleartext); upgrade_loses_nothing speaks about "
+        "the F30 tree (fixed_tree_is_round6_model)",
+        "writer-stack model: an upgrade installs a clean new stack; before F30 snappy negotiated by a later IDENTIFY after "
+        "deflate is not (open finding snappy-after-deflate-garbled, oracle-only replay), outside the model; the server's "
+        "read side after a second upgrade is not modelled",
     ]
     ctx.rule = ("codec: generated envelopes (every timestamp class incl. negative / extreme, attempts 0/255/256/65535/"
                 "random, ids, bodies of size 0..max+1 around 26/64/4096/16384 with classes random, all-zero, "
@@ -57,6 +65,7 @@ def run(ctx):
     ctx.gen("e1_bytes")   # translated WriteTo / decodeMessage / SendFramedResponse / SendResponse / readLen (kind bytes)
     for spec in ("e1_guidloop", "e3_proto", "e4_proto"):   # Gen.GuidLoop (fanoutLoop), Gen.Proto / Gen.LookupdProto (magics)
         ctx.gen(spec)
+    ctx.gen("e1_stack")   # audit A2: the shape of SetOutputBuffer / Upgrade* (which tree: Tie.WireStack.treeFixed)
     ok, log = ctx.lean_build(TIE + PROPS)
     if not ok:
         ctx.lean_obligation_failed("lake build " + " ".join(TIE + PROPS), log[-1500:])
@@ -83,6 +92,8 @@ def run(ctx):
     else:
         run_e2e(ctx, ebin, corr_broken, combos=ctx.budget(24, 0), n=ctx.budget(40, 30))
         run_pubsub(ctx, ebin, corr_broken, ctx.budget(40, 400))
+    # --- audit A2: which transport the output goes to when IDENTIFY is sent more than once -------------
+    run_stack(ctx, corr_broken)
     # --- engine E9: the real go-diskqueue against its model (discharges the disk-queue assumption) -----
     e9_dq.leg(ctx, corr_broken)
     # --- search phase ---------------------------------------------------------------------------
@@ -106,6 +117,85 @@ def run(ctx):
         ctx.broken_without_input(ctx.broken_ties + corr_broken,
                                  "search: %d generated codec cases and end-to-end deliveries under the direct "
                                  "oracles found no corrupted, lost or re-identified message" % ctx.evaluations)
+
+
+def stack_tree_fixed():
+    """Which tree the regenerated facts describe (Nsq.Tie.WireStack.treeFixed, read off the generated text)."""
+    from framework import LEAN
+    try:
+        txt = open(os.path.join(LEAN, "Nsq", "Gen", "WireStack.lean")).read()
+    except OSError:
+        return None
+    return "bufio.NewWriterSize(c.outputDest, c.OutputBufferSize)" in txt
+
+
+def run_stack(ctx, corr_broken):
+    """Writer-stack leg (Model.WireStack): white-box correspondence `stack` + network double-IDENTIFY oracle.
+    The unfixed tree (before F30) reproduces the known finding `second-identify-cleartext`."""
+    sbin = ctx.go_test_binary("nsqd", ["e1/e1_helpers_test.go", "e1/reident_test.go"], "e1stack")
+    if not sbin:
+        ctx.broken_ties.append("harness e1/reident_test.go does not compile against the current tree")
+        corr_broken.append("stack harness build")
+        return
+    fixed = stack_tree_fixed()
+    reproduced = False
+    key = "second-identify-cleartext" if not fixed else "second-identify-cleartext:tree-has-F30"
+    known = os.path.join(os.path.dirname(os.path.dirname(os.path.abspath(__file__))), "corpus", "C07", "known",
+                         "second_identify.stack")
+    ok, ops, impl, out = e1util.run_corr(ctx, sbin, "TestVerifStackCorr", "stack", ctx.budget(600, 6000),
+                                         {"VERIF_CORPUS": known, "VERIF_STACK_DS": "1" if fixed else "0",
+                                          "VERIF_STACK_ORACLE_ONLY": os.path.join(os.path.dirname(known), "snappy_after_deflate.stackx")},
+                                         timeout=ctx.budget(300, 900))
+    if not ok:
+        corr_broken.append("TestVerifStackCorr exit")
+    else:
+        ctx.corr.setdefault("histograms", {})["stack"] = e1util.histogram(out, "STACK-HIST")
+        fails = [l for l in out.splitlines() if l.startswith("ORACLE-FAIL")]
+        seen_keys = set()
+        for l in fails:
+            wk = wire_key(l)
+            if wk in seen_keys:
+                continue
+            seen_keys.add(wk)
+            if wk == "second-identify-cleartext":
+                k = key
+                reproduced = True
+            elif wk == "snappy-after-deflate-garbled":
+                k = wk if not fixed else wk + ":tree-has-F30"
+            else:
+                k = "stack:" + wk
+            ctx.violation(k, l[:700], "TestVerifStackCorr (white-box), seed %s; first failing lines:\n%s\n"
+                          "replay: corpus/C07/known/second_identify.stack through VERIF_CORPUS\n"
+                          % (ctx.seed, "\n".join(fails[:5])))
+        model = e1util.model_of(ctx, "stack")
+        for o, i in zip(ops, impl):
+            ctx.count_case(o, nontrivial="garbled" not in i)
+        for idx, a, b in ctx.diff_lines(impl, model, "stack"):
+            ctx.log("model/impl disagree on `%s`: impl=%s model=%s" % (ops[idx][:200], a[:200], b[:200]))
+            corr_broken.append("correspondence stack: %s" % ops[idx][:160])
+    rc, out = ctx.run_cmd([sbin, "-test.run", "^TestVerifReidentify$", "-test.count=1", "-test.timeout=600s"],
+                          timeout=660, env={"VERIF_SEED": ctx.seed, "VERIF_N": ctx.budget(1, 4), "VERIF_REPO": REPO})
+    fails = [l for l in out.splitlines() if l.startswith("REIDENT-FAIL")]
+    okl = [l for l in out.splitlines() if l.startswith("REIDENT-OK")]
+    for l in fails:
+        m = re.search(r"key=(\S+)", l)
+        k = m.group(1) if m else "?"
+        if k == "harness":
+            continue
+        reproduced = reproduced or k == "second-identify-cleartext"
+        ctx.violation(key if k == "second-identify-cleartext" else "reident:" + k, l[:700],
+                      "TestVerifReidentify (network), seed %s\n%s\n" % (ctx.seed, "\n".join(fails[:8])))
+    if not okl or any("key=harness" in l for l in fails):
+        ctx.log("TestVerifReidentify did not complete cleanly (rc=%s):\n%s" % (rc, out[-2000:]))
+        corr_broken.append("reidentify harness: " + (([l for l in fails if "key=harness" in l] or ["exit %s" % rc])[0][:200]))
+    else:
+        m = re.search(r"cases=(\d+) failed=(\d+)", okl[0])
+        ctx.evaluations += int(m.group(1))
+        ctx.corr["reidentify"] = {"summary": okl[0], "tree_has_F30": bool(fixed),
+                                  "cases": [l for l in out.splitlines() if l.startswith("REIDENT-")][:80]}
+    if fixed is False and not reproduced and ok and okl:
+        ctx.log("the tree has the unfixed SetOutputBuffer shape but the second-IDENTIFY replay did not reproduce")
+        corr_broken.append("tie says unfixed SetOutputBuffer, replay does not reproduce the cleartext writer")
 
 
 def run_wire(ctx, binp, corr_broken, n, search=False):
